@@ -72,6 +72,10 @@ func wrongTypeMuts(fields ...string) []mut {
 	var ms []mut
 	for _, f := range fields {
 		for _, raw := range wrongTyped {
+			if raw == "null" {
+				ms = append(ms, mut{"null:" + f, false, setField(f, field_(fNull))})
+				continue
+			}
 			if raw[0] == '"' && f != "Clients" {
 				// a string is the right type here: an ordinary value
 				ms = append(ms, mut{"string:" + f + ":" + raw, false, setField(f, fs(f, raw[1:len(raw)-1]))})
@@ -324,10 +328,7 @@ func refHandPollResp(m *hand) (int, string, pollRespOut) {
 			}
 		}
 		e.relay = rel.str()
-	case st.k == fStr && st.s == "no match":
-		if off.k != fAbsent || nat.k != fAbsent || rel.k != fAbsent {
-			free = true
-		}
+	case st.k == fStr && st.s == "no match" && off.k == fAbsent && nat.k == fAbsent && rel.k == fAbsent:
 		e.nat = natDefault
 	default:
 		free = true // other or missing status: not specified
@@ -347,8 +348,10 @@ func (h *H) checkHandPollResp(m *hand, id, note string) int {
 	want, feat, e := refHandPollResp(m)
 	st := m.get("Status")
 	cmp := want
-	if !(st.k == fStr && (st.s == "client match" || st.s == "no match")) {
-		// unspecified statuses: only totality and the post-conditions
+	bare := m.get("Offer").k == fAbsent && m.get("NAT").k == fAbsent && m.get("RelayURL").k == fAbsent
+	if !(st.k == fStr && (st.s == "client match" || (st.s == "no match" && bare))) {
+		// unspecified statuses, or "no match" with members the comments do not
+		// give it: only totality and the post-conditions
 		if o, ok := h.decPollResp("handwritten", rc, data); ok {
 			h.postPollResp(o, rc)
 		}
